@@ -205,7 +205,21 @@ pub fn run_y(args: &[&str]) -> String {
             dump_green(&new, &interner, &mut s);
             let red: SyntaxNode<K> = SyntaxNode::new_root(new.clone());
             let text = red.resolve_text(&interner).to_string();
-            format!("{s} text={} ranges={} orig_unchanged={unchanged}", text_cps(&text), dump_ranges(&red))
+            // the result equals (and hashes like) the same tree constructed from scratch
+            let fresh = rebuild(&new);
+            let h = |g: &GreenNode| {
+                use std::hash::{Hash, Hasher};
+                let mut st = std::collections::hash_map::DefaultHasher::new();
+                g.hash(&mut st);
+                st.finish()
+            };
+            format!(
+                "{s} text={} ranges={} orig_unchanged={unchanged} fresh={}{}",
+                text_cps(&text),
+                dump_ranges(&red),
+                b(new == fresh && fresh == new),
+                b(h(&new) == h(&fresh))
+            )
         }
     }
 }
